@@ -53,6 +53,8 @@ def response_pdu(r, fc=None):
     if fc in (3, 4):
         n = r.choice([1, 5, 10, 125])
         return [fc, (2 * n) & 0xFF] + [r.randrange(0, 256) for _ in range(2 * n)]
+    if fc == 6 and r.random() < 0.5:
+        return [6, 0, 3, 0x33, 0x33]
     return [fc] + be16(r.choice(BOUNDARY_ADDR)) + be16(r.choice([0xFF00, 0, 1, 5, 65535]))
 
 
@@ -101,7 +103,7 @@ def rtu(unit, pdu, r=None, bad=None):
     return body + [lo, hi]
 
 
-def stream(r, role, framing, nframes=None):
+def stream(r, role, framing, nframes=None, reply_fc=3):
     """(bytes, description) - a mostly valid stream with a minority of malformed frames"""
     n = nframes if nframes is not None else r.choice([1, 1, 2, 3, 5, 8])
     out, desc = [], []
@@ -114,7 +116,7 @@ def stream(r, role, framing, nframes=None):
         if role == 'server':
             pdu = request_pdu(r, valid=valid)
         else:
-            pdu = response_pdu(r, fc=3 if r.random() < 0.6 else None)
+            pdu = response_pdu(r, fc=reply_fc if r.random() < 0.6 else None)
         if r.random() < (0.1 if valid else 0.5):
             pdu = mutate(r, pdu)
             valid = False
@@ -156,6 +158,20 @@ def chunk(r, data, style=None):
             res.append(data[prev:c])
             prev = c
     return res
+
+
+def client_request(r):
+    """(reply function code, leading tokens) of the client's outstanding request: mostly the read of five holding
+    registers, a quarter of the time a write-single-register (`@Qw`; its completion goes through another promise type)"""
+    return (6, ['@Qw']) if r.random() < 0.25 else (3, [])
+
+
+def with_drop(r, toks, p=0.2):
+    """for a minority of client streams the application drops the request's future at a random position (`@X`)"""
+    if r.random() < p:
+        q = r.randrange(0, len(toks) + 1)
+        return toks[:q] + ['@X'] + toks[q:]
+    return toks
 
 
 def tokens(r, role, chunks, p_write=0.25):
